@@ -152,12 +152,19 @@ def _small_names(tier, seed, shard=(0, 1)):
     cases = [["A -L", "A -L", "A  -L", "A  -L"], ["PAD -L", "PAD -R", "PAD"], ["PAD -R", "PAD", "PAD -L"],
              ["PAD -L", "PAD -R"], ["PAD -R", "PAD -L"], ["PAD L", "PAD R", "PAD -L", "PAD -R"], ["A", "A", "A"],
              ["A+B", "A B", "A.B"], ["PAD.", "PAD..", "PAD"], ["+A", ".A", "#1", "0", ".."], ["L", "R"], ["-L", "-R"],
-             ["A -L", "A -L", "A -R", "A -R"], ["PAD 2 L", "PAD 2 R", "PAD 2"], ["X.Y-L", "X.Y-R", "X.Y"]]
+             ["A -L", "A -L", "A -R", "A -R"], ["PAD 2 L", "PAD 2 R", "PAD 2"], ["X.Y-L", "X.Y-R", "X.Y"],
+             # one stem claimed by a mono sample and by several pairs written with different separators
+             ["PAD", "PAD -L", "PAD -R", "PAD L", "PAD R"], ["PAD -L", "PAD -R", "PAD L", "PAD R", "PAD"],
+             ["PAD -L", "PAD -R", "PAD L", "PAD R", "PAD  -L", "PAD  -R"], ["PAD L", "PAD L", "PAD -L", "PAD -L"],
+             ["PAD - R", "PAD - R", "PAD R", "PAD R", "PAD"]]
     for a, b in itertools.combinations(POOL[:16], 2):
         cases.append([a, b])
     rnd = random.Random(3000 + seed)
     for _ in range(40 if tier == "quick" else 600):
         cases.append([rnd.choice(POOL) for _ in range(rnd.randint(2, 5))])
+    stems = ["PAD", "PAD -L", "PAD -R", "PAD L", "PAD R", "PAD  -L", "PAD  -R", "PAD-L", "PAD-R"]
+    for _ in range(30 if tier == "quick" else 400):
+        cases.append([rnd.choice(stems) for _ in range(rnd.randint(4, 7))])
     k = 0
     for c in cases:
         k += 1
